@@ -490,6 +490,16 @@ func main() {
 		return
 	}
 	run.Histogram["responses-checked-by-the-model"] = nResp
+	// premises of the theorems, decided by the model on every evaluated case (components 3 and 13 report a case
+	// outside them): schema_closed of the walked schema, xwf of the built schema
+	run.Histogram["premise:schema_closed+xwf-checked-on-cases"] = len(terms)
+	nFields := 0
+	for idx := range cases {
+		if gf, ok := results[idx].Obs["gofields"].(string); ok {
+			nFields += strings.Count(gf, "KStructField") + strings.Count(gf, "(KFunc") + strings.Count(gf, "(KBatch")
+		}
+	}
+	run.Histogram["go-field-types-compared-with-the-model"] = nFields
 	const shard = 20
 	for s := 0; s < len(terms); s += shard {
 		end := s + shard
